@@ -1292,6 +1292,13 @@ class Interp:
             self.st.assumptions.add('A-str: str.splitlines is the uninterpreted function `str_splitlines`')
             seq = V.uf('str_splitlines', V.S, SeqVal)(s)
             return SeqV(seq) if self.pure else self.st.new_list(seq)
+        if name == 'count' and len(av) == 1:
+            if not self.pure and not self.st.branch(Val.is_s(av[0])):
+                self.raise_(TypeError, 'must be str')
+            self.st.assumptions.add('A-str: str.count is the uninterpreted function `str_count` (non-negative)')
+            cnt = V.uf('str_count', V.S, V.S, V.I)(s, Val.sv(av[0]))
+            self.st.assume(cnt >= 0)
+            return Val.i(cnt)
         if name == 'format':
             # constant template with plain positional `{}` fields only: the pieces joined with str() of the arguments
             tmpl = z3.simplify(s)
@@ -1894,6 +1901,12 @@ class Interp:
     def spec_rstrip(self, node):
         v = self.to_val(self.ev(node.args[0]))
         return Val.s(STR_RSTRIP(Val.sv(v)))
+
+    def spec_str_count(self, node):
+        """str_count(text, sub): the uninterpreted function that stands for text.count(sub) in verified code"""
+        v = self.to_val(self.ev(node.args[0]))
+        sub = self.to_val(self.ev(node.args[1]))
+        return Val.i(V.uf('str_count', V.S, V.S, V.I)(Val.sv(v), Val.sv(sub)))
 
     def spec_split(self, node):
         v = self.to_val(self.ev(node.args[0]))
